@@ -27,7 +27,7 @@ def run(chk, replay=None):
     # rejected calls of the data / dimension APIs: same rule, judged on NixData and NixDims (only the rejected transitions)
     import data_common, dims_common, vcheck
     rej = lambda r: r['step']['res'] == 'reject'
-    dims_common.run_dims(chk, judge=rej)
+    dims_common.run_dims(chk, c08=True)
     binary = vcheck.ensure_build('plain')
     t = 't' if chk.thorough else 'q'
     rp = vcheck.Replayer(binary, seed=chk.seed, opts={'types': ['Double', 'String', 'Int16'], 'compressions': ['None']}, chunk=60)
